@@ -224,6 +224,7 @@ class PtySession:
         self.master = -1
         self.proc: subprocess.Popen | None = None
         self._lock = threading.Lock()
+        self._serve_lock = threading.Lock()  # held while the responder answers a request
         self._seen = bytearray()
         self._stop = False
         self._thread: threading.Thread | None = None
@@ -320,7 +321,9 @@ class PtySession:
                 self._seen += data
                 plan = self._plan
             if plan is not None:
-                self._serve(plan)
+                with self._serve_lock:
+                    if self._plan is plan:
+                        self._serve(plan)
 
     def _serve(self, plan: dict) -> None:
         while plan["next"] < len(plan["requests"]):
@@ -391,7 +394,8 @@ class PtySession:
                 elif want == "sentinel":
                     with self._lock:
                         self._plan = None
-                    os.write(self.master, SENTINEL)
+                    with self._serve_lock:  # no answer is under way any more
+                        os.write(self.master, SENTINEL)
                 else:
                     break
         except NoReturn:
